@@ -818,3 +818,54 @@ Fixpoint x_plains (v : xv) : list string :=
   | XStruct fs => (fix go (fs : list (string * bool * xv)) : list string :=
                      match fs with [] => [] | (_, _, x) :: r => x_plains x ++ go r end) fs
   end.
+
+(* =====================================================================================
+   Part 11 — (re)loading: otelcol/collector.go setupConfigurationComponents, run at start-up and
+   again by reloadConfiguration on every configuration change event / SIGHUP.  Each run gets the
+   typed configuration from the provider and does
+       conf := confmap.New();  conf.Marshal(cfg)
+   i.e. MERGES the encoding into a FRESH Conf, and hands that Conf to the service (-> NotifyConfig).
+   Conf.Merge is koanf's merge: maps are merged recursively, anything else is overwritten. *)
+Fixpoint cv_merge (old new : cv) {struct new} : cv :=
+  match new with
+  | CMap kn =>
+      match old with
+      | CMap ko =>
+          CMap (filter (fun e => negb (existsb (fun f => String.eqb (fst e) (fst f)) kn)) ko ++
+                (fix go (kn : list (string * cv)) : list (string * cv) :=
+                   match kn with
+                   | [] => []
+                   | (k, x) :: r => (k, match lookup k ko with Some o => cv_merge o x | None => x end) :: go r
+                   end) kn)
+      | _ => new
+      end
+  | _ => new
+  end.
+
+(* one load: the effective configuration of a typed configuration whose encoding is [enc] *)
+Definition load_effective (enc : cv) : cv := cv_merge (CMap []) enc.
+
+(* a history of loads (start-up, then reloads): nothing is carried from one load to the next *)
+Definition run_loads (encs : list cv) : list cv := map load_effective encs.
+
+(* a load whose configuration does not validate (xconfmap.Validate fails in
+   setupConfigurationComponents) is refused: nothing is handed to the service; a refused RELOAD makes
+   Collector.Run return the error, so no later load happens in that run.  A history entry is
+   (valid?, encoding). *)
+Fixpoint run_loads_v (h : list (bool * cv)) : list cv :=
+  match h with
+  | [] => []
+  | (true, e) :: r => load_effective e :: run_loads_v r
+  | (false, _) :: _ => []
+  end.
+
+(* configunmarshaler.Configs.Unmarshal: the type of an id `type[/name]` must have a factory; the first
+   id (in the iteration order of a Go map: any) whose type has none makes the load fail naming it *)
+Definition type_of_id (id : string) : string :=
+  match String.index 0 "/" id with
+  | Some n => String.substring 0 n id
+  | None => id
+  end.
+
+Definition unknown_type_ids (known : list string) (ids : list string) : list string :=
+  filter (fun id => negb (str_mem (type_of_id id) known)) ids.
